@@ -64,7 +64,6 @@ Aux:
 		if len(args) <= ai {
 			break
 		}
-	Mode:
 		switch mode {
 		case reqMode:
 			switch strings.ToLower(ad.Name) {
@@ -97,21 +96,24 @@ Aux:
 				ai++
 			}
 		case restMode:
+			restSym = Symbol(ad.Name)
+			keysNext := i+1 < len(lam.Doc.Args) && strings.EqualFold(lam.Doc.Args[i+1].Name, AmpKey)
+			if keysNext && isKeyValueList(args[ai:]) {
+				// The rest parameter gets all the remaining arguments and
+				// the keys are taken from those same arguments.
+				rest = append(rest, args[ai:]...)
+				mode = keyMode
+				break
+			}
+			// The remaining arguments are not just keys and values so the
+			// rest parameter gets the arguments up to the first key.
 			for ai < len(args) {
 				a := args[ai]
-				if sym, ok := a.(Symbol); ok && 0 < len(sym) && sym[0] == ':' {
-					sym = sym[1:]
-					for j := i + 1; j < len(lam.Doc.Args); j++ {
-						if string(sym) == lam.Doc.Args[j].Name {
-							mode = keyMode
-							break Mode
-						}
-					}
+				if sym, ok := a.(Symbol); ok && 0 < len(sym) && sym[0] == ':' && lam.hasKey(string(sym[1:])) {
+					mode = keyMode
+					break
 				}
 				ai++
-				if len(restSym) == 0 {
-					restSym = Symbol(ad.Name)
-				}
 				rest = append(rest, a)
 			}
 		case keyMode:
@@ -225,6 +227,20 @@ func (lam *Lambda) hasKey(name string) bool {
 		}
 	}
 	return false
+}
+
+// isKeyValueList returns true if args is a list of alternating keywords and
+// values.
+func isKeyValueList(args List) bool {
+	if len(args)%2 != 0 {
+		return false
+	}
+	for i := 0; i < len(args); i += 2 {
+		if sym, ok := args[i].(Symbol); !ok || len(sym) == 0 || sym[0] != ':' {
+			return false
+		}
+	}
+	return true
 }
 
 // BoundCall the the function with the bindings provided.
